@@ -77,6 +77,36 @@ def main():
                             except Exception:  # noqa
                                 pass
                 v = c["v"][0] / c["v"][1]
+                if nconv % 3 == 0 and any(x in spec["units"] for x in (c["a"], c["b"], c["c"])):
+                    # user-defined units come and go: this case gets unit objects of its own, built afresh (after a
+                    # throw-away unit with another factor has lived and died at what may be the same address)
+                    def throwaway():
+                        t = units.Unit(units.meter, lambda x: x * 7.0, lambda x: x / 7.0)
+                        units.convert(t, units.inch, 1.0)
+                        units.convert(units.foot, t, 1.0)
+                    throwaway()
+                    saved = dict(U)
+                    for name in spec["units"]:
+                        del U[name]
+                    pend = dict(spec["units"])
+                    while pend:
+                        for name, d in list(pend.items()):
+                            if d["base"] in U:
+                                n, dn = d["factor"]
+                                U[name] = units.Unit(U[d["base"]], (lambda x, n=n, dn=dn: x * n / dn),
+                                                     (lambda x, n=n, dn=dn: x * dn / n))
+                                del pend[name]
+                    try:
+                        r = units.convert(U[c["a"]], U[c["b"]], v)
+                        c["_id"] = units.convert(U[c["a"]], U[c["a"]], v)
+                        c["_rt"] = units.convert(U[c["b"]], U[c["a"]], r)
+                        c["_via"] = units.convert(U[c["b"]], U[c["c"]], r)
+                        c["_direct"] = units.convert(U[c["a"]], U[c["c"]], v)
+                    finally:
+                        U.clear()
+                        U.update(saved)
+                    out.append({"case": c, "r": r, "err": None})
+                    continue
                 r = units.convert(U[c["a"]], U[c["b"]], v)
                 # the laws themselves, on the real code
                 c["_id"] = units.convert(U[c["a"]], U[c["a"]], v)
